@@ -1,17 +1,161 @@
 package main
 
-import "golang.org/x/tools/go/ssa"
+import (
+	"go/types"
+
+	"golang.org/x/tools/go/ssa"
+)
 
 type ssaFunction = ssa.Function
 
+// AbsKey is the engine-native abstract jwk.Key.
+type AbsKey struct {
+	valid, hasAlg *Term
+	algKind       int
+	algName, kty  StrVal
+	kid           StrVal
+	id            int
+}
+
+// AbsSet is the engine-native abstract jwk.Set.
+type AbsSet struct{ keys []IfaceVal }
+
+func (e *Engine) libNamed(pkgPath, name string) types.Type {
+	for _, p := range e.sh.prog.AllPackages() {
+		if p.Pkg.Path() == pkgPath {
+			if t := p.Type(name); t != nil {
+				return t.Type()
+			}
+		}
+	}
+	unsupported("type %s.%s not loaded", pkgPath, name)
+	return nil
+}
+
+const jwaPath = "github.com/lestrrat-go/jwx/v2/jwa"
+
 func (e *Engine) cryptoIntrinsic(fn *ssa.Function, full string, args []Value) (Value, bool) {
-	return nil, false
+	switch full {
+	case "os.Open":
+		if e.parseResult == nil {
+			return nil, false
+		}
+		slot := new(Value)
+		*slot = mkInt(0)
+		return TupleVal{PtrVal{slot}, IfaceVal{}}, true
+	case "(*os.File).Close":
+		return IfaceVal{}, true
+	case "io.ReadAll":
+		if e.parseResult == nil {
+			return nil, false
+		}
+		return TupleVal{JBytes{JNull{}}, IfaceVal{}}, true
+	case "github.com/lestrrat-go/jwx/v2/jwk.Parse":
+		if e.parseResult == nil {
+			return nil, false
+		}
+		return TupleVal{*e.parseResult, IfaceVal{}}, true
+	}
+	return e.sigIntrinsic(fn, full, args)
 }
 
 func (e *Engine) harnessExtra(fn *ssa.Function, name string, args []Value) (Value, bool) {
-	return nil, false
+	switch name {
+	case "vpAbstractKey":
+		e.atomSeq++
+		k := &AbsKey{valid: args[0].(*Term), hasAlg: args[1].(*Term), algKind: e.concretize(args[2].(*Term), 0, 2),
+			algName: args[3].(StrVal), kty: args[4].(StrVal), kid: args[5].(StrVal), id: e.atomSeq}
+		slot := new(Value)
+		*slot = k
+		return IfaceVal{typ: e.sh.marks.opaque, val: PtrVal{slot}}, true
+	case "vpAbstractSet":
+		s := &AbsSet{}
+		for _, k := range variadic(args[0]) {
+			s.keys = append(s.keys, k.(IfaceVal))
+		}
+		slot := new(Value)
+		*slot = s
+		return IfaceVal{typ: e.sh.marks.opaque, val: PtrVal{slot}}, true
+	case "vpKeySetFile":
+		v := Value(args[0])
+		e.parseResult = &v
+		return mkStr("vp://keyset"), true
+	case "vpCleanup":
+		return nil, true
+	}
+	return e.sigHarnessExtra(fn, name, args)
 }
 
 func (e *Engine) invokeIntrinsic(recv IfaceVal, name string, args []Value) (Value, bool) {
+	p, ok := recv.val.(PtrVal)
+	if !ok || p.slot == nil || recv.typ != e.sh.marks.opaque {
+		return nil, false
+	}
+	switch obj := (*p.slot).(type) {
+	case *AbsKey:
+		switch name {
+		case "Validate":
+			if e.decide(obj.valid) {
+				return IfaceVal{}, true
+			}
+			return e.newError(mkStr("jwk: invalid key")), true
+		case "Get":
+			field := e.mustStr(args[0], "jwk.Key.Get field")
+			switch field {
+			case "alg":
+				if e.decide(obj.hasAlg) {
+					return TupleVal{e.absAlg(obj), tTrue}, true
+				}
+				return TupleVal{IfaceVal{}, tFalse}, true
+			case "kid":
+				if len(obj.kid.bytes) == 0 {
+					return TupleVal{IfaceVal{}, tFalse}, true
+				}
+				return TupleVal{IfaceVal{typ: types.Typ[types.String], val: obj.kid}, tTrue}, true
+			}
+			unsupported("jwk.Key.Get(%q)", field)
+		case "Algorithm":
+			if e.decide(obj.hasAlg) {
+				return e.absAlg(obj), true
+			}
+			// jwx returns an invalid (empty) key algorithm when none is set
+			return IfaceVal{typ: e.libNamed(jwaPath, "InvalidKeyAlgorithm"), val: StrVal{}}, true
+		case "KeyType":
+			return obj.kty, true
+		case "KeyID":
+			return obj.kid, true
+		case "PublicKey":
+			return TupleVal{recv, IfaceVal{}}, true
+		case "Thumbprint":
+			return TupleVal{JBytes{JNull{}}, IfaceVal{}}, true
+		}
+		unsupported("abstract jwk.Key method %s", name)
+	case *AbsSet:
+		switch name {
+		case "Len":
+			return mkInt(int64(len(obj.keys))), true
+		case "Key":
+			i := e.concretize(args[0].(*Term), -1, len(obj.keys))
+			if i < 0 || i >= len(obj.keys) {
+				return TupleVal{IfaceVal{}, tFalse}, true
+			}
+			return TupleVal{obj.keys[i], tTrue}, true
+		case "LookupKeyID":
+			want := args[0].(StrVal)
+			for _, k := range obj.keys {
+				ak := (*k.val.(PtrVal).slot).(*AbsKey)
+				if e.decide(strEq(ak.kid, want)) {
+					return TupleVal{k, tTrue}, true
+				}
+			}
+			return TupleVal{IfaceVal{}, tFalse}, true
+		}
+		unsupported("abstract jwk.Set method %s", name)
+	}
 	return nil, false
+}
+
+func (e *Engine) absAlg(k *AbsKey) IfaceVal {
+	tn := []string{"SignatureAlgorithm", "KeyEncryptionAlgorithm", "InvalidKeyAlgorithm"}[k.algKind]
+	return IfaceVal{typ: e.libNamed(jwaPath, tn), val: k.algName}
 }
